@@ -121,6 +121,15 @@ def run_check(prop, tier, seed, workers):
         return mod.run_custom(tier, seed, workers, ev, finish)
 
     cfgs = mod.configs(tier)
+    # configurations over modules that need more crate features (local server, HTTP client) use their own dump
+    for variant in sorted({c.get('mir', 'core') for c in cfgs} - {'core'}):
+        try:
+            _p, s2, regen2 = build.mir_dump(variant=variant)
+            mir_s += s2
+            regen = regen or regen2
+        except Exception as e:  # noqa
+            ev['coverage'] = {'explanation': 'MIR dump (' + variant + ') failed: ' + str(e)[:2000], 'evaluations': 0, 'distinct_nontrivial': 0}
+            return finish(3, ['INCONCLUSIVE unsupported: MIR dump of the current tree failed (' + variant + ')', str(e)[-1500:]])
     agg_stats = ex.new_stats()
     covers, samples, violations, errors, panic_samples = set(), [], [], [], []
     bounds = []
